@@ -2,6 +2,7 @@ import Driver.L0
 import Driver.L1
 import Driver.L2
 import Driver.L3
+import Driver.L4
 open Clap.Driver
 
 def dispatch (line : String) : String :=
@@ -18,6 +19,9 @@ def dispatch (line : String) : String :=
     | some r => r
     | none =>
     match handleL3 cmd args with
+    | some r => r
+    | none =>
+    match handleL4 cmd args with
     | some r => r
     | none => "bad-op"
 
